@@ -214,11 +214,9 @@ def model_runs(tier):
 # ---------------------------------------------------------------------------
 # binding self-test: corrupt one observed field of an accepted trace
 # ---------------------------------------------------------------------------
-def corrupt(trace, rng, used=None):
-    """one observation of an accepted trace changed into an answer that is wrong under every reading;
-    returns None if the trace offers nothing to corrupt"""
-    t = copy.deepcopy(trace)
-    evs = t["events"]
+def candidates(trace):
+    """the corruptions a trace offers: (event index, kind)"""
+    evs = trace["events"]
     cands = []
     for i, e in enumerate(evs):
         k = e["ev"]
@@ -265,12 +263,13 @@ def corrupt(trace, rng, used=None):
     for i, e in enumerate(evs):
         if e["ev"] in ("order", "rorder") and e.get("exc") == "ValueError":
             cands.append((i, e["ev"] + ":cycle-ordered"))
-    if not cands:
-        return None
-    if used is not None:        # the kinds tried least so far first
-        least = min(used[h] for _, h in cands)
-        cands = [c for c in cands if used[c[1]] == least]
-    i, how = rng.choice(cands)
+    return cands
+
+
+def corrupt(trace, i, how):
+    """one observation of an accepted trace changed into an answer that is wrong under every reading"""
+    t = copy.deepcopy(trace)
+    evs = t["events"]
     e = evs[i]
     if how == "deps:extra-dependent":
         e["dents"] = sorted(e["dents"] + [0])
@@ -409,22 +408,22 @@ def run(prop, tier):
     rng.shuffle(pool)
     selftest = []
     kinds_seen = collections.Counter()
-    for t in pool:
-        c = corrupt(t, rng, kinds_seen)
-        if c is None:
+    per_kind = max(3, NSELF[tier] // 27)
+    for t in pool:                      # the whole pool is scanned: rare kinds of observation are found too
+        cands = [c for c in candidates(t) if kinds_seen[c[1]] < per_kind]
+        if not cands:
             continue
-        kind = c["id"].split("/")[1]
-        if kinds_seen[kind] >= max(4, NSELF[tier] // 12):
-            continue
-        kinds_seen[kind] += 1
-        selftest.append(c)
-        if len(selftest) >= NSELF[tier]:
+        least = min(kinds_seen[h] for _, h in cands)
+        i, how = rng.choice([c for c in cands if kinds_seen[c[1]] == least])
+        kinds_seen[how] += 1
+        selftest.append(corrupt(t, i, how))
+        if len(selftest) >= NSELF[tier] + 27:
             break
     sval = lib.validate_traces("DrGraphTrace", "DrGraphTrace.cfg", [dict(id=t["id"], events=t["events"]) for t in selftest],
                                jobs=1)
     caught = set(r["id"] for r in sval["rejected"])
     missed = [t["id"] for t in selftest if t["id"] not in caught]
-    if missed or not selftest or (strict and len(kinds_seen) < 22):
+    if missed or not selftest or (strict and len(kinds_seen) < 24):
         raise lib.MachineryError("binding self-test: %d corrupted traces were accepted, e.g. %s (kinds exercised: %d)"
                                  % (len(missed), missed[:3], len(kinds_seen)))
     kinds = sorted(kinds_seen)
